@@ -23,7 +23,7 @@ LEVEL_NOTE = ("Trusted: Coq kernel, extraction, driver.ml, harness, numpy as exe
               "(untrusted) and re-checked exactly by check_y_bracket. Axioms: stdlib real-number axioms, Classical_Prop.classic, "
               "functional_extensionality_dep (Coquelicot). Residual: (d, delta) are sampled; floats math.cosh/acosh only propose the bracket "
               "and place the sampled overlaps.")
-RULE = ("d = 1..25 and {40, 79, 100, 150, 200} (quick: 1..12, 25, 79, 90, 200), delta in {1e-3, 0.1, 0.3, 0.5, 0.9}; per (d, delta): delta "
+RULE = ("d = 1..25 and {40, 79, 100, 150, 200} (quick: 1..12, 25, 79, 90, 200), delta in {1e-3, 0.1, 0.3, 0.5, 0.9, 0.97, 0.9995, 0.999999}; per (d, delta): delta "
         "path, gamma path, return_alpha, repeated in one process with other gammas in between; 24 overlaps incl. 0, 1 and the fixed-point "
         "width; distinct by JSON; non-trivial = d >= 2")
 TRUSTED = ["Coq 8.16.1 kernel", "extraction (ExtrOcamlBasic, ExtrOcamlZBigInt) + driver.ml + zarith", "harness (impl_runner.py, impl_handlers5.py)",
@@ -91,7 +91,8 @@ def run(ctx):
         cases = [ctx.replay["case"]]
     else:
         for d in ds:
-            for delta in ([0.1, rng.choice([1e-3, 0.3, 0.5, 0.9])] if quick else [1e-3, 0.1, 0.3, 0.5, 0.9]):
+            for delta in (([0.1, rng.choice([1e-3, 0.3, 0.5, 0.9])] + ([0.97, 0.9995] if d >= 79 else [rng.choice([0.97, 0.9995, 0.999999])] if d % 4 == 1 else []))
+                          if quick else [1e-3, 0.1, 0.3, 0.5, 0.9, 0.97, 0.9995, 0.999999]):
                 L = 2 * d + 1
                 gamma = 1 / math.cosh(math.acosh(1 / delta) / L)
                 other = 1 / math.cosh(math.acosh(1 / (delta * 0.5)) / L)
